@@ -4,6 +4,7 @@ import ast
 from sa.core import AnalysisError, norm
 from sa.consts import known
 from sa.pat import AnyOf, StatusIn, StatusNotIn, Env, match, parse_pat
+from rules._shared import retry_lined_up_rules
 
 TECHNIQUE = ('static analysis: who-may-write allow-lists (completed-output '
              'map, status field), per-status who-may-set table with guard '
@@ -262,6 +263,8 @@ def check(c):
     act = c.K.name(m, 'TASK_STATUSES_ACTIVE')
     c.ob('C09.order-table', 'task_state:TASK_STATUSES_ACTIVE', known(act)
          and set(act) == {'submitted', 'running'}, '', str(act))
+    # ---- late messages of a failed job cannot move a waiting retry task
+    retry_lined_up_rules(c, 'C09')
 
 
 VARIANTS = [
@@ -319,4 +322,10 @@ VARIANTS = [
      '        if itask.state_reset(TASK_STATUS_RUNNING, forced=forced):',
      '        if itask.state_reset(TASK_STATUS_RUNNING):',
      'C09.forced-refusal'),
+    ('retry-ignore-polled-only', 'cylc/flow/task_events_mgr.py',
+     '''            # Polling in live mode only:
+''',
+     '''            and flag != self.FLAG_RECEIVED
+            # Polling in live mode only:
+''', 'C09.retry-lined-up'),
 ]
